@@ -146,8 +146,10 @@ var (
 	// constructor of C that consumes the group: placed over a chain of scopes
 	// (C exported from below) the group is demanded again while its decorator
 	// is being built
-	dGwB = u.F("dGwB", "{A*g},B", "{[A]!1+g}")
-	dBwC = u.F("dBwC", "B,C", "B")
+	rAnB   = u.F("rAnB", "B", "A", u.Name("n")) // A@n needs B
+	pGnest = u.F("pGnest", "{{A*g};B?}", "C")   // group field in a nested parameter object
+	dGwB   = u.F("dGwB", "{A*g},B", "{[A]!1+g}")
+	dBwC   = u.F("dBwC", "B,C", "B")
 )
 
 // ring pieces: constructor of X consuming Y.
